@@ -58,16 +58,26 @@ MODEL_SCOPE = ('modelled: select_edfa, filter_edfa_list_based_on_targets, edfa_n
 # library
 # ---------------------------------------------------------------------------------------------------------------------
 
-def spec_json(name, a):
+def limits_of(a, eq):
+    """(p_max, gain_flatmax) by the library rule: a dual-stage type has its booster stage's p_max and the sum of both
+    stages' flat gains (taken from the stand-alone entries it names, not from what _update_dual_stage stored)"""
+    if a.type_def == 'dual_stage' and eq is not None:
+        pre, boost = amplib.dual_names(a)
+        return eq['Edfa'][boost].p_max, eq['Edfa'][boost].gain_flatmax + eq['Edfa'][pre].gain_flatmax
+    return a.p_max, a.gain_flatmax
+
+
+def spec_json(name, a, eq=None):
     if a.type_def == 'multi_band':
         return {'name': name, 'multi_band': list(a.multi_band), 'allowed': bool(a.allowed_for_design)}
+    p_max, gfm = limits_of(a, eq)
     return {'name': name, 'multi_band': None, 'raman': bool(a.raman), 'allowed': bool(a.allowed_for_design),
-            'fmin': int(a.f_min), 'fmax': int(a.f_max), 'gain_flatmax': f2b(a.gain_flatmax),
-            'gain_min': f2b(a.gain_min), 'p_max': f2b(a.p_max), 'nf': amplib.nf_json(a)}
+            'fmin': int(a.f_min), 'fmax': int(a.f_max), 'gain_flatmax': f2b(gfm),
+            'gain_min': f2b(a.gain_min), 'p_max': f2b(p_max), 'nf': amplib.nf_json_from_library(a, eq)}
 
 
 def lib_json(eq):
-    return [spec_json(n, a) for n, a in eq['Edfa'].items()]
+    return [spec_json(n, a, eq) for n, a in eq['Edfa'].items()]
 
 
 BANDS = [(amplib.C_FMIN, amplib.C_FMAX), (amplib.C_FMIN, amplib.C_FMAX), (191_225_000_000_000, 196_125_000_000_000),
@@ -99,6 +109,7 @@ def gen_sel_lib(rng, n=None, bands=False, multiband=False, all_allowed=False):
     if n >= 2 and rng.random() < 0.5:
         for j in range(rng.choice([1, 2])):
             pre, boost = rng.sample(singles, 2)
+            amplib.split_pmax(rng, entries, pre, boost)
             pe = next(e for e in entries if e['type_variety'] == pre)
             d = amplib.dual_entry(rng, f'd{j}', pre, boost, gain_min=pe['gain_min'] + rng.choice([0, 5, 10]))
             d['allowed_for_design'] = rng.random() < 0.65
@@ -344,9 +355,10 @@ def nf_close(a, b):
     return abs(a - b) <= 1e-9 * max(1.0, abs(a))
 
 
-def own_attrs(a, gain, power, ext):
+def own_attrs(a, gain, power, ext, eq=None):
     """power / gain_min attributes and NF of one model for the targets (own arithmetic)"""
-    pw = min(power - gain + a.gain_flatmax + ext, a.p_max) - power
+    p_max, gfm = limits_of(a, eq)
+    pw = min(power - gain + gfm + ext, p_max) - power
     gm = (gain - a.gain_min) if a.raman else (gain + 3 - a.gain_min)
     nf, _ = amplib.mon_nf(a, gain)
     return pw, gm, nf
@@ -361,7 +373,7 @@ def monitor_choice(res, eq, permitted, raman_allowed, gain, power, ext, chosen, 
     if a.raman and not raman_allowed:
         res.fail(f'raman: {where}Raman model {chosen} chosen although Raman is not allowed here')
     usable = [n for n in permitted if not eq['Edfa'][n].raman or raman_allowed]
-    attrs = {n: own_attrs(eq['Edfa'][n], gain, power, ext) for n in usable}
+    attrs = {n: own_attrs(eq['Edfa'][n], gain, power, ext, eq) for n in usable}
     capable = [n for n in usable if attrs[n][0] > 1e-9 and attrs[n][1] > 1e-9]
     if capable and chosen in attrs:
         pw, gm, nf = attrs[chosen]
@@ -420,7 +432,7 @@ def run_select(case, drv):
     else:
         # rejected: the statement demands a choice only if some permitted non-Raman model exists or a capable one
         usable = [n for n, a in edfa_eqpt.items() if not a.raman or ok]
-        attrs = {n: own_attrs(eq['Edfa'][n], gain, power, ext) for n in usable}
+        attrs = {n: own_attrs(eq['Edfa'][n], gain, power, ext, eq) for n in usable}
         if any(v[0] > 1e-9 and v[1] > 1e-9 for v in attrs.values()):
             res.fail('capable: selection rejected although a permitted model can deliver the gain and power')
         res.stats['sel_rejected'] += 1
